@@ -320,7 +320,11 @@ func genC05(r *Rand, p *Plan, tier string) {
 	for k := 0; k < nPk; k++ {
 		typ := uint8(1 + r.Intn(3))
 		var body BodySpec
-		switch r.Intn(8) {
+		bk := r.Intn(8)
+		if (sub == 3 || sub == 4) && bk == 0 {
+			bk = 2 // paced runs: packets small enough for several to share one buffer fill
+		}
+		switch bk {
 		case 0:
 			n := PickOf(r, 65536, 65535, 65521, 4096, 107, 108, 95, 96)
 			if n > budget {
@@ -371,12 +375,38 @@ func genC05(r *Rand, p *Plan, tier string) {
 		tr := r.Intn(full)
 		last.Trunc = &tr
 		cs.Ops = append(cs.Ops, Op{Kind: "idle"})
+	case 3: // paced: the clock runs while a pipelined stream trickles in; nothing stalls longer than the server allows a packet
+		p.Scen.Stall = true
+		cs.Ops = append(cs.Ops, Op{Kind: PickOf(r, "idle", "close")})
+	case 4: // coalesced and paced by script: a packet arrives together with the first bytes of the
+		// next one, late in its own waiting time; the rest follows well within the next
+		// packet's waiting time, but later than the first packet's would have ended
+		var ops []Op
+		d1 := 1000 + r.Intn(13000)
+		ops = append(ops, Op{Kind: "pace", N: d1})
+		for k := 0; k < len(cs.Ops); k++ {
+			ops = append(ops, cs.Ops[k])
+			if k+1 < len(cs.Ops) && r.Chance(70) {
+				ops = append(ops, cs.Ops[k+1])
+				k++
+				keep := 1 + r.Intn(len(cs.Ops[k].Pkt.Wire(key))-1)
+				ops = append(ops, Op{Kind: "pace", N: 1000 + r.Intn(13000), Keep: keep})
+			} else {
+				ops = append(ops, Op{Kind: "pace", N: r.Intn(14000)})
+			}
+		}
+		cs.Scripted = true
+		cs.Ops = append(ops, Op{Kind: "pace"}, Op{Kind: PickOf(r, "idle", "close")})
 	default:
 		if r.Chance(50) {
 			cs.Ops = append(cs.Ops, Op{Kind: "close"})
 		}
 	}
-	insertAwaits(r, &cs, PickOf(r, 0, 0, 50, 100))
+	if sub == 3 || sub == 4 {
+		insertAwaits(r, &cs, 0)
+	} else {
+		insertAwaits(r, &cs, PickOf(r, 0, 0, 50, 100))
+	}
 	p.Scen.Clients = []ClientSpec{cs}
 	p.Tape = r.Tape(1500)
 }
